@@ -68,6 +68,10 @@ type space struct {
 	// of different lengths that agree in their big-endian value, in their
 	// leading bytes up to zero padding, or in their low bytes (codeRelations)
 	coincide bool
+
+	// holes marks the code spaces of the hole family (holes.go): byte strings
+	// between two codes of the same length that are no codes themselves
+	holes bool
 }
 
 func run(start string, n int) []string {
@@ -442,6 +446,10 @@ type runner struct {
 
 	pairShapes *seenSet
 
+	// code spaces used by families of hand-built files only (holes.go,
+	// sizes.go); no windows, not part of runCID / runTU
+	fileSpaces map[string]*space
+
 	chainMenu []*chainSpace
 	chainAsgs map[string]*chainAsg // chains.go: assignments of code spaces to the files of a chain
 }
@@ -628,10 +636,12 @@ func Run(tier string) int {
 		budget = 22 * time.Minute
 	}
 	r := ev.New("C13", tier, "exploration", budget)
-	r.Rule("a case is (code space, window of codes, chain of maps child..grandparent, [file configuration]); every map on the window over the value alphabet (for code->text: the base alphabet, and on the windows and chain configurations listed under tounicode_enlarged_* the enlarged alphabet with the multi-rune family) is built with SetMapping / NewToUnicodeFile and judged in memory against the Go map; the code spaces include the code-length coincidence family (code_length_coincidences_in_windows: windows holding codes of different lengths with equal value, with equal leading bytes up to zero padding, with equal or adjacent last bytes); one execution = one in-memory judgement or one Embed->close->reopen->Extract round trip; distinct non-trivial = distinct (space, window, chain, map) with at least two mapped codes (the range compression has a decision to take) plus distinct hand-built files (rectangular ranges, and the odd-range family: every ordered pair of end points from a grid per code length); the chain code space family (chain_code_space_*): every assignment of a code space from a menu (none, 1-byte, 2-byte, 3-byte, mixed 1+2-byte; equal to, inside, containing, overlapping, disjoint from, in prefix conflict with the parent's) to every file of a chain of length 2 (thorough: and 3) x every map of child and parent on a window of codes inside each file's own code space, code->CID chains enumerated with File.Codec() of the chain, distinct non-trivial = distinct (assignment, maps) with an entry in child and parent")
+	r.Rule("a case is (code space, window of codes, chain of maps child..grandparent, [file configuration]); every map on the window over the value alphabet (for code->text: the base alphabet, and on the windows and chain configurations listed under tounicode_enlarged_* the enlarged alphabet with the multi-rune family) is built with SetMapping / NewToUnicodeFile and judged in memory against the Go map; the code spaces include the code-length coincidence family (code_length_coincidences_in_windows: windows holding codes of different lengths with equal value, with equal leading bytes up to zero padding, with equal or adjacent last bytes); one execution = one in-memory judgement or one Embed->close->reopen->Extract round trip; distinct non-trivial = distinct (space, window, chain, map) with at least two mapped codes (the range compression has a decision to take) plus distinct hand-built files (rectangular ranges, and the odd-range family: every ordered pair of end points from a grid per code length); the chain code space family (chain_code_space_*): every assignment of a code space from a menu (none, 1-byte, 2-byte, 3-byte, mixed 1+2-byte; equal to, inside, containing, overlapping, disjoint from, in prefix conflict with the parent's) to every file of a chain of length 2 (thorough: and 3) x every map of child and parent on a window of codes inside each file's own code space, code->CID chains enumerated with File.Codec() of the chain, distinct non-trivial = distinct (assignment, maps) with an entry in child and parent; the hole family of hand-built files (handbuilt_hole_*): in code spaces with holes (the Shift-JIS code space of 90ms-RKSJ-H, a 3-byte space with a hole in the middle byte) every rectangle whose end points lie on a grid of byte values around the edges of every hole, as cidrange and as bfrange (one value, multi-rune, astral, short list), alone / after / before an ordinary range; the notdef range size family (notdef_range_size_*): code lengths 1..4, every tuple of per-byte spans from {1,2,127,128,129,255,256} anchored at 00..00 or FF..FF, looked up at the corners and at the positions 0, size-1, 2^k-1, 2^k, 2^k+1 (k = 0..32) of the range")
 	r.Assume("reference model: the Go map the CMap was built from; code space equivalence decided by ref.go on the partition induced by all range bounds",
 		"a child cannot unmap a code of its parent: the map of a chain is parent overlaid by child; CID 0 and 'not enumerated' are the same answer when a parent is present",
 		"hand-built files (rectangular ranges, overlaps, notdef entries, short value lists) are judged for lookup/enumeration agreement on codes covered by exactly one entry and for identical behaviour after the round trip; a reference value is demanded only for one-row ranges (consecutive CIDs; one-element bfrange value = last rune incremented)",
+		"in a code space with holes a range entry speaks about the codes inside its rectangle only: byte strings of the rectangle that are no codes of the space are not enumerated and nothing is demanded of looking them up; the position of a code in a one-row range counts every byte value from the first end point, code or not",
+		"a notdef range contains a code iff every byte lies between the bytes of the end points; codes between the end points as numbers but outside that rectangle are not probed; the CID of a notdef range does not depend on the position of the code in the range",
 		"odd ranges (several rows with a partial last-byte span, end points in lexicographic but not byte-wise order, first > last): no specification gives them a meaning, so only agreement of enumeration and lookup is demanded, on every code that lies in the extent (rectangle united with numeric interval) of at most one entry, before and after the round trip, and identical behaviour after it; a file the reader refuses because first > last is 'not accepted'",
 		"the code space of a parent chain is the union of the code spaces its files declare; a union that is not prefix-free is no code space: File.Codec() may refuse it and only lookups are judged; ToUnicodeFile has no chain codec: code->text chains with different code spaces are enumerated with charcode.NewCodec(union), and GetMapping must hold exactly what Lookup answers")
 	if msg := selfTest(); msg != "" {
@@ -648,6 +658,10 @@ func Run(tier string) int {
 		rn.spaces[sp.name] = sp
 	}
 	if err := rn.initChains(); err != nil {
+		r.Infra(err.Error())
+		return r.Finish()
+	}
+	if err := rn.initFileSpaces(); err != nil {
 		r.Infra(err.Error())
 		return r.Finish()
 	}
@@ -679,9 +693,15 @@ func Run(tier string) int {
 		}
 	}
 
-	parts := os.Getenv("VERIF_C13_PARTS") // debugging aid: "cid,tu,files,chains,pairs"; a partial run is marked non-exhaustive
+	parts := os.Getenv("VERIF_C13_PARTS") // debugging aid: "cid,tu,files,sizes,holes,chains,pairs" (files includes sizes and holes); a partial run is marked non-exhaustive
 	if parts != "" {
 		r.Capped("partial run: VERIF_C13_PARTS=" + parts)
+	}
+	if parts == "" || strings.Contains(parts, "files") || strings.Contains(parts, "sizes") {
+		rn.runSizeFiles()
+	}
+	if parts == "" || strings.Contains(parts, "files") || strings.Contains(parts, "holes") {
+		rn.runHoleFiles()
 	}
 	if parts == "" || strings.Contains(parts, "files") {
 		rn.runFiles()
@@ -706,6 +726,7 @@ func Run(tier string) int {
 		spaceNames = append(spaceNames, sp.name)
 	}
 	r.Dim("code_space_list", spaceNames)
+	r.Dim("code_spaces_of_hand_built_files_only", sortedKeys(rn.fileSpaces))
 	r.Dim("cid_alphabet", cidAlphaNames)
 	r.Dim("tounicode_alphabet", tuAlphaNames[:tuBaseLen])
 	r.Dim("file_configurations_cid", len(allConfigs))
@@ -1037,6 +1058,9 @@ func (rn *runner) replayCase(c Case) bool {
 	}
 	sp := rn.spaces[c.Space]
 	if sp == nil {
+		sp = rn.fileSpaces[c.Space]
+	}
+	if sp == nil {
 		return false
 	}
 	var cfgs []config
@@ -1086,6 +1110,10 @@ func Replay(path string) int {
 		rn.spaces[sp.name] = sp
 	}
 	if err := rn.initChains(); err != nil {
+		r.Infra(err.Error())
+		return r.Finish()
+	}
+	if err := rn.initFileSpaces(); err != nil {
 		r.Infra(err.Error())
 		return r.Finish()
 	}
